@@ -24,6 +24,9 @@ use serde_json::{json, Value};
 use std::collections::VecDeque;
 
 fn main() {
+    if std::env::args().any(|a| a == "--exec-sleep-helper") {
+        conform::exec_sleep_helper();
+    }
     let args = parse_args();
     install_panic_hook();
     if let Some(p) = &args.replay {
@@ -78,30 +81,30 @@ fn cases(g: &Grid) -> Vec<Case> {
             (Scen::TryAccept, &[PeerMode::Ready, PeerMode::Absent][..]),
         ] {
             for &peer in peers {
-                v.push(Case { scen, fam, len: 0, cap: 4, mode: 0, timeout: None, peer, obtain: 0, use_: 0, rx: 0 });
+                v.push(Case { scen, fam, len: 0, cap: 4, mode: 0, timeout: None, peer, obtain: 0, use_: 0, rx: 0, child: false });
             }
         }
         for &t in &g.timeouts {
             for peer in [PeerMode::Ready, PeerMode::Absent] {
-                v.push(Case { scen: Scen::AcceptTimeout, fam, len: 0, cap: 4, mode: 0, timeout: Some(t), peer, obtain: 0, use_: 0, rx: 0 });
+                v.push(Case { scen: Scen::AcceptTimeout, fam, len: 0, cap: 4, mode: 0, timeout: Some(t), peer, obtain: 0, use_: 0, rx: 0, child: false });
             }
         }
         for peer in [PeerMode::Ready, PeerMode::Late, PeerMode::Absent] {
-            v.push(Case { scen: Scen::Connect, fam, len: 0, cap: 4, mode: 0, timeout: None, peer, obtain: 0, use_: 0, rx: 0 });
-            v.push(Case { scen: Scen::TryConnect, fam, len: 0, cap: 4, mode: 0, timeout: None, peer, obtain: 0, use_: 0, rx: 0 });
+            v.push(Case { scen: Scen::Connect, fam, len: 0, cap: 4, mode: 0, timeout: None, peer, obtain: 0, use_: 0, rx: 0, child: false });
+            v.push(Case { scen: Scen::TryConnect, fam, len: 0, cap: 4, mode: 0, timeout: None, peer, obtain: 0, use_: 0, rx: 0, child: false });
         }
     }
-    v.push(Case { scen: Scen::TryConnect, fam: Fam::Tcp, len: 0, cap: 4, mode: 0, timeout: None, peer: PeerMode::Blackhole, obtain: 0, use_: 0, rx: 0 });
+    v.push(Case { scen: Scen::TryConnect, fam: Fam::Tcp, len: 0, cap: 4, mode: 0, timeout: None, peer: PeerMode::Blackhole, obtain: 0, use_: 0, rx: 0, child: false });
     for &t in &g.timeouts {
         for peer in [PeerMode::Ready, PeerMode::Late, PeerMode::Absent, PeerMode::Blackhole] {
-            v.push(Case { scen: Scen::ConnectTimeout, fam: Fam::Tcp, len: 0, cap: 4, mode: 0, timeout: Some(t), peer, obtain: 0, use_: 0, rx: 0 });
+            v.push(Case { scen: Scen::ConnectTimeout, fam: Fam::Tcp, len: 0, cap: 4, mode: 0, timeout: Some(t), peer, obtain: 0, use_: 0, rx: 0, child: false });
         }
     }
     for peer in [PeerMode::Ready, PeerMode::Late, PeerMode::Absent, PeerMode::Blackhole] {
-        v.push(Case { scen: Scen::InProgTry, fam: Fam::Tcp, len: 0, cap: 4, mode: 0, timeout: None, peer, obtain: 0, use_: 0, rx: 0 });
+        v.push(Case { scen: Scen::InProgTry, fam: Fam::Tcp, len: 0, cap: 4, mode: 0, timeout: None, peer, obtain: 0, use_: 0, rx: 0, child: false });
     }
     for peer in [PeerMode::Ready, PeerMode::Late, PeerMode::Absent] {
-        v.push(Case { scen: Scen::InProgBlocking, fam: Fam::Tcp, len: 0, cap: 4, mode: 0, timeout: None, peer, obtain: 0, use_: 0, rx: 0 });
+        v.push(Case { scen: Scen::InProgBlocking, fam: Fam::Tcp, len: 0, cap: 4, mode: 0, timeout: None, peer, obtain: 0, use_: 0, rx: 0, child: false });
     }
     // --- every way of obtaining a stream x every way of using it, peer connected but silent
     for &fam in &fams {
@@ -111,7 +114,7 @@ fn cases(g: &Grid) -> Vec<Case> {
             }
             for use_ in 0..scen::USES.len() {
                 let cap = 2usize;
-                let base = Case { scen: Scen::Chain, fam, len: 0, cap, mode: 0, timeout: None, peer: PeerMode::Ready, obtain, use_, rx: 0 };
+                let base = Case { scen: Scen::Chain, fam, len: 0, cap, mode: 0, timeout: None, peer: PeerMode::Ready, obtain, use_, rx: 0, child: false };
                 match use_ {
                     0 => {
                         // only TcpStream has a timed read
@@ -122,6 +125,12 @@ fn cases(g: &Grid) -> Vec<Case> {
                         }
                     }
                     1 => v.push(base),
+                    3 => {
+                        // drop => the peer reads end-of-stream, without and with a fork+exec'd child in between
+                        for child in [false, true] {
+                            v.push(Case { child, ..base.clone() });
+                        }
+                    }
                     _ => {
                         for rx in [0usize, 4] {
                             v.push(Case { len: cap + 2, rx, ..base.clone() });
@@ -146,7 +155,7 @@ fn cases(g: &Grid) -> Vec<Case> {
                 for mode in wmodes {
                     // rx_pending: a greeting of the peer sits unread in the writing socket's receive queue
                     for rx in [0usize, 4] {
-                        v.push(Case { scen: Scen::Write, fam, len, cap, mode, timeout: None, peer: PeerMode::Ready, obtain: 0, use_: 0, rx });
+                        v.push(Case { scen: Scen::Write, fam, len, cap, mode, timeout: None, peer: PeerMode::Ready, obtain: 0, use_: 0, rx, child: false });
                     }
                 }
                 let mut rmodes = vec![0usize, 1, 2];
@@ -157,7 +166,7 @@ fn cases(g: &Grid) -> Vec<Case> {
                     rmodes.push(len + 2);
                 }
                 for mode in rmodes {
-                    v.push(Case { scen: Scen::Read, fam, len, cap, mode, timeout: None, peer: PeerMode::Ready, obtain: 0, use_: 0, rx: 0 });
+                    v.push(Case { scen: Scen::Read, fam, len, cap, mode, timeout: None, peer: PeerMode::Ready, obtain: 0, use_: 0, rx: 0, child: false });
                 }
             }
         }
@@ -165,10 +174,10 @@ fn cases(g: &Grid) -> Vec<Case> {
             for &cap in &[1usize, 4] {
                 for &t in &g.timeouts {
                     for mode in [2usize, 3] {
-                        v.push(Case { scen: Scen::ReadTimeout, fam: Fam::Tcp, len, cap, mode, timeout: Some(t), peer: PeerMode::Ready, obtain: 0, use_: 0, rx: 0 });
+                        v.push(Case { scen: Scen::ReadTimeout, fam: Fam::Tcp, len, cap, mode, timeout: Some(t), peer: PeerMode::Ready, obtain: 0, use_: 0, rx: 0, child: false });
                     }
                     if len == 0 && cap == 1 {
-                        v.push(Case { scen: Scen::ReadTimeout, fam: Fam::Tcp, len, cap, mode: 2, timeout: Some(t), peer: PeerMode::Absent, obtain: 0, use_: 0, rx: 0 });
+                        v.push(Case { scen: Scen::ReadTimeout, fam: Fam::Tcp, len, cap, mode: 2, timeout: Some(t), peer: PeerMode::Absent, obtain: 0, use_: 0, rx: 0, child: false });
                     }
                 }
             }
@@ -318,7 +327,9 @@ fn model_phase(args: &Args) -> Report {
          for UnixStream, which has no timed or try operation, a blocking descriptor is only recorded as an outcome class). \
          ppoll is answered from the REQUESTED events and the socket state in both directions; every write scenario runs with rx_pending in {{0, 4}} unread inbound bytes on the writing \
          socket (a wait that also asks for POLLIN then returns at once while the send FIFO is still full and the retry answers EAGAIN again); after a would-block answer the events of the \
-         following ppoll must be the direction the operation needs (POLLOUT for write/connect, POLLIN for read/accept) and nothing of the other direction (waits-for-wrong-events).",
+         following ppoll must be the direction the operation needs (POLLOUT for write/connect, POLLIN for read/accept) and nothing of the other direction (waits-for-wrong-events). \
+         Close-on-exec is tracked per descriptor (socket()/accept4() flags, fcntl F_SETFD): for every obtaining variant x {{no child, a model fork+exec of a long-lived child between \
+         obtaining and dropping the stream (exec closes exactly the child's CLOEXEC copies)}} the model peer must read end-of-stream after the drop (peer-sees-no-eof-after-drop).",
         g.caps, g.max_len, g.timeouts, budget
     );
     r.bound("deviation_budget", budget);
@@ -361,6 +372,13 @@ fn replay(v: &Value, r: &mut Report) {
             conform::real_connect_blocking(r);
             for s in &r.samples {
                 println!("  observed: {s}");
+            }
+        }
+        "real-exec-eof" => {
+            println!("replaying on the REAL kernel: every accept/connect variant, fork+exec of a long-lived child, drop, peer must read EOF");
+            conform::real_exec_eof(r);
+            for (k, c) in &r.outcomes {
+                println!("  {k}: {c}");
             }
         }
         "bulk" => {
